@@ -97,3 +97,147 @@ Qed.
 
 Lemma strip_app_both a b c : strip (append a b) (append a c) = strip b c.
 Proof. induction a; cbn; [reflexivity | rewrite Ascii.eqb_refl; exact IHa]. Qed.
+
+(** ** templates as lines *)
+Fixpoint split_nl (s : string) : list string :=
+  match s with
+  | EmptyString => [EmptyString]
+  | String c t =>
+      let r := split_nl t in
+      if Ascii.eqb c nl_char then EmptyString :: r
+      else match r with
+           | x :: r' => String c x :: r'
+           | [] => [String c EmptyString]
+           end
+  end.
+
+Definition txt (s : string) : list seg := match s with EmptyString => [] | _ => [Text s] end.
+
+Fixpoint tpl_lines_go (cur : list seg) (t : list seg) : list (list seg) :=
+  match t with
+  | [] => [cur]
+  | Hole n :: r => tpl_lines_go (cur ++ [Hole n]) r
+  | Text s :: r =>
+      match split_nl s with
+      | [] => tpl_lines_go cur r
+      | [x] => tpl_lines_go (cur ++ txt x) r
+      | x :: more => (cur ++ txt x) :: map txt (removelast more) ++ tpl_lines_go (txt (last more EmptyString)) r
+      end
+  end.
+
+(** the lines of a template that ends with a newline (this function is only used to STATE the
+    line decompositions below; each of them is then proved by computation) *)
+Definition region_lines (t : list seg) : list (list seg) := removelast (tpl_lines_go [] t).
+
+Definition render_lines (env : list (string * string)) (t : list seg) : list string :=
+  map (render env) (region_lines t).
+
+(** *** region: the within-word matcher [_<cmd>_subword] *)
+Definition seg_nl : list seg := [Text nl].
+
+Definition R_sub (nc ns : bool) : list seg :=
+  write_subword_fn_0 ++ seg_nl
+  ++ (if nc then write_subword_fn_1 else []) ++ (if ns then write_subword_fn_2 else [])
+  ++ write_subword_fn_3 ++ write_subword_fn_4 ++ write_subword_fn_5
+  ++ (if nc then write_subword_fn_6 ++ seg_nl else [])
+  ++ write_subword_fn_7 ++ write_subword_fn_8 ++ seg_nl ++ seg_nl.
+
+Lemma render_app env a b : render env (a ++ b) = append (render env a) (render env b).
+Proof.
+  induction a as [|[s|n] a IH]; cbn [app render]; [reflexivity | |]; rewrite IH, append_assoc; reflexivity.
+Qed.
+
+Definition env_cmd (command : string) : list (string * string) :=
+  [("command", command); ("MATCH_FN_NAME", match_fn_name_bash)].
+
+Lemma write_subword_fn_region command nc ns :
+  write_subword_fn command nc ns = render (env_cmd command) (R_sub nc ns).
+Proof.
+  unfold write_subword_fn, R_sub, fmtln, fmt, env_cmd, seg_nl. cbn [sconcat].
+  destruct nc, ns; rewrite !render_app; cbn [render]; rewrite ?QuoteRT.append_nil_r, ?append_assoc; reflexivity.
+Qed.
+
+
+(** *** the generic decomposition of a rendered template into its lines *)
+Definition jnl (l : list string) : string := join nl l.
+
+Lemma join_cons2 (x y : string) l : join nl (x :: y :: l) = append x (append nl (join nl (y :: l))).
+Proof. reflexivity. Qed.
+
+Lemma split_nl_nonempty s : split_nl s <> [].
+Proof.
+  destruct s as [|c t]; cbn [split_nl]; [discriminate|]. destruct (Ascii.eqb c nl_char); [discriminate|].
+  destruct (split_nl t); discriminate.
+Qed.
+
+Lemma join_split_nl s : join nl (split_nl s) = s.
+Proof.
+  induction s as [|c t IH]; [reflexivity|]. cbn [split_nl].
+  destruct (Ascii.eqb_spec c nl_char) as [->|Hne].
+  - destruct (split_nl t) as [|y l] eqn:E; [exfalso; exact (split_nl_nonempty t E)|].
+    rewrite join_cons2, IH. reflexivity.
+  - destruct (split_nl t) as [|y l] eqn:E; [exfalso; exact (split_nl_nonempty t E)|].
+    destruct l as [|z l].
+    + cbn [join] in *. congruence.
+    + rewrite join_cons2 in *. cbn [append]. congruence.
+Qed.
+
+Lemma render_txt env x : render env (txt x) = x.
+Proof. destruct x; [reflexivity|]. cbn [txt render]. apply QuoteRT.append_nil_r. Qed.
+
+Lemma join_app_ne (a : list string) b0 (b : list string) :
+  join nl (a ++ b0 :: b) = append (sconcat (map (fun x => append x nl) a)) (join nl (b0 :: b)).
+Proof.
+  induction a as [|x a IH]; [reflexivity|]. cbn [app map sconcat].
+  destruct (a ++ b0 :: b) as [|y l] eqn:E; [destruct a; discriminate E|].
+  rewrite join_cons2, IH, !append_assoc. reflexivity.
+Qed.
+
+Lemma tpl_lines_go_nonempty cur t : tpl_lines_go cur t <> [].
+Proof.
+  revert cur. induction t as [|[s|n] r IH]; intros cur; cbn [tpl_lines_go]; [discriminate | | apply IH].
+  destruct (split_nl s) as [|x [|y more]]; [apply IH | apply IH | discriminate].
+Qed.
+
+Lemma render_join_lines env t :
+  forall cur, join nl (map (render env) (tpl_lines_go cur t)) = append (render env cur) (render env t).
+Proof.
+  induction t as [|[s|n] r IH]; intros cur.
+  - cbn. rewrite QuoteRT.append_nil_r. reflexivity.
+  - cbn [tpl_lines_go render]. pose proof (join_split_nl s) as Hs.
+    destruct (split_nl s) as [|x [|y more]] eqn:E; [exfalso; exact (split_nl_nonempty s E) | |].
+    + cbn [join] in Hs. subst x. rewrite IH, render_app, render_txt, append_assoc. reflexivity.
+    + (* at least one newline in s *)
+      set (more' := y :: more) in *.
+      assert (Hm : more' <> []) by discriminate.
+      rewrite (app_removelast_last EmptyString Hm) in Hs.
+      destruct (tpl_lines_go (txt (last more' EmptyString)) r) as [|l0 ls] eqn:El;
+        [exfalso; exact (tpl_lines_go_nonempty _ _ El)|].
+      cbn [map]. rewrite map_app. cbn [map].
+      change (render env (cur ++ txt x) :: map (render env) (map txt (removelast more')) ++ render env l0 :: map (render env) ls)
+        with ((render env (cur ++ txt x) :: map (render env) (map txt (removelast more'))) ++ render env l0 :: map (render env) ls).
+      rewrite join_app_ne.
+      change (render env l0 :: map (render env) ls) with (map (render env) (l0 :: ls)). rewrite <- El, IH, render_txt.
+      cbn [map sconcat]. rewrite render_app, render_txt.
+      rewrite <- Hs. change (x :: removelast more' ++ [last more' EmptyString]) with ((x :: removelast more') ++ [last more' EmptyString]).
+      rewrite join_app_ne. cbn [map sconcat join]. rewrite !map_map.
+      rewrite (map_ext (fun x0 => render env (txt x0) ++ nl)%string (fun x0 => x0 ++ nl)%string) by (intros; rewrite render_txt; reflexivity).
+      rewrite !append_assoc. reflexivity.
+  - cbn [tpl_lines_go render]. rewrite IH, render_app. cbn [render]. rewrite QuoteRT.append_nil_r, append_assoc. reflexivity.
+Qed.
+
+(** a template whose last line is empty (it ends with a newline) is the [unlines] of its lines *)
+Lemma render_region env t :
+  last (tpl_lines_go [] t) [Text "x"] = [] ->
+  render env t = unlines (render_lines env t).
+Proof.
+  intros Hl. pose proof (render_join_lines env t []) as H. cbn [render append] in H. rewrite <- H.
+  unfold render_lines, region_lines.
+  pose proof (tpl_lines_go_nonempty [] t) as Hne.
+  rewrite (app_removelast_last [Text "x"] Hne) at 1. rewrite Hl, map_app. cbn [map render].
+  rewrite join_app_ne. cbn [join]. rewrite QuoteRT.append_nil_r. reflexivity.
+Qed.
+
+Lemma R_sub_lines command nc ns :
+  render (env_cmd command) (R_sub nc ns) = unlines (render_lines (env_cmd command) (R_sub nc ns)).
+Proof. apply render_region. destruct nc, ns; vm_compute; reflexivity. Qed.
